@@ -13,7 +13,8 @@ pub struct BlockCase {
     /// constant carried by each definition (pairwise distinct)
     pub consts: Vec<i64>,
     /// 0: value, annotation after the binder; 1: value, annotation inside the binder pattern;
-    /// 2: type alias (stands for Int64, possibly through another alias)
+    /// 2: type alias (stands for Int64, possibly through another alias); 3, 4, 5: value whose term
+    /// is a block nested one, two, three levels deep, the references in its innermost contribution
     pub kinds: Vec<u8>,
 }
 
@@ -35,7 +36,15 @@ fn def_text(case: &BlockCase, i: usize) -> String {
         acc = format!("s{k}");
         k += 1;
     }
-    if case.kinds[i] == 1 {
+    if case.kinds[i] >= 3 {
+        // the references sit in a `that` contribution of a block nested one to three levels deep in
+        // this contribution
+        let mut term = format!("{{ {body}ret {acc} }}");
+        for d in 0..(case.kinds[i] - 2) {
+            term = format!("begin let w{d} = {term} that w{d} end");
+        }
+        format!("  let zq{i} : Thk (Ret {scalar}) = {term} that\n")
+    } else if case.kinds[i] == 1 {
         format!("  let (zq{i} : Thk (Ret {scalar})) = {{ {body}ret {acc} }} that\n")
     } else {
         format!("  let zq{i} : Thk (Ret {scalar}) = {{ {body}ret {acc} }} that\n")
@@ -130,7 +139,7 @@ fn gen_case(rng: &mut Rng, want_cycle: bool) -> BlockCase {
     let consts = (0..n).map(|i| 100 * (i as i64 + 1) + rng.range(1, 9)).collect();
     // a third of the definitions are type aliases; a type refers to at most one other type, a value
     // to at most one type (in its annotation) and to any values
-    let kinds: Vec<u8> = (0..n).map(|_| if rng.chance(1, 3) { 2 } else { rng.below(2) as u8 }).collect();
+    let kinds: Vec<u8> = (0..n).map(|_| if rng.chance(1, 3) { 2 } else if rng.chance(1, 3) { 3 + rng.below(3) as u8 } else { rng.below(2) as u8 }).collect();
     for i in 0..n {
         let mut seen_type = false;
         let is_type = kinds[i] == 2;
